@@ -29,6 +29,8 @@ LATTICES = [
     ([3.0, 4.0, 5.0, 90, 90, 90], "C"),
     # large (protein-size) cells: g-vectors of 1e-2 .. 1e-3 per Angstrom, cross products down to 1e-5
     ([150.0, 150.0, 150.0, 90, 90, 90], "P"), ([130.0, 140.0, 400.0, 90, 90, 90], "P"),
+    # pseudo-cubic with ring splittings of 1e-3 .. 4e-3 (between the default ring tolerance and the ones users set)
+    ([4.0, 4.0, 4.02, 90, 90, 90], "P"),
 ]
 
 
@@ -206,7 +208,7 @@ def run_shard(desc):
         from ImageD11 import unitcell as _ucm2
         uc2 = _ucm2.unitcell(cell, sym)
         lim0 = uc.ringds[min(len(uc.ringds) - 1, nr)] + 1e-3
-        for (lim, tol) in ((lim0, 1e-4), (lim0 * 0.8, 2e-3), (lim0 * 1.1, 1e-5), (lim0, 1e-4)):
+        for (lim, tol) in ((lim0, 1e-4), (lim0 * 0.8, 2e-3), (lim0 * 1.1, 1e-5), (lim0, 1e-4), (lim0, 5e-3), (lim0, 5e-3), (lim0, 5e-3)):
             uc2.makerings(lim, tol)
             for ra in range(min(2, len(uc2.ringds))):
                 for rb in range(ra, min(3, len(uc2.ringds))):
